@@ -18,6 +18,9 @@ from dataclasses import dataclass, field
 
 VERIF = os.path.dirname(os.path.dirname(os.path.abspath(__file__)))
 REPO = os.environ.get("VERIF_REPO", "/repo")
+# where evidence/ and replays/ are written: /verif, unless a run against another tree (a seeded change in a scratch
+# worktree) asks for its own place so that the committed evidence always describes /repo
+OUT = os.environ.get("VERIF_OUT") or VERIF
 NPROC = int(os.environ.get("VERIF_NPROC", "0")) or min(16, os.cpu_count() or 1)
 
 
@@ -434,7 +437,7 @@ class Context:
     # ---- finishing ------------------------------------------------------
     def finish(self):
         prop = self.prop
-        rdir = os.path.join(VERIF, "replays", prop)
+        rdir = os.path.join(OUT, "replays", prop)
         new_viol = []
         known_lines = {}
         for v in self.acc.violations:
@@ -467,8 +470,8 @@ class Context:
         stale = [e["id"] for e in self.findings.entries
                  if e.get("status") == "open" and e["id"] not in known_lines]
         ev = self._evidence(len(new_viol), sorted(known_lines), stale)
-        os.makedirs(os.path.join(VERIF, "evidence"), exist_ok=True)
-        with open(os.path.join(VERIF, "evidence", prop + ".json"), "w") as f:
+        os.makedirs(os.path.join(OUT, "evidence"), exist_ok=True)
+        with open(os.path.join(OUT, "evidence", prop + ".json"), "w") as f:
             json.dump(ev, f, indent=1, default=repr)
         for line in out_lines:
             print(line)
